@@ -480,7 +480,11 @@ func runListener(c LCase, r *pbt.R) {
 			}
 		default:
 			if !send(i, step, 3*time.Second) {
-				r.Failf("C15|listener|datagram-not-routed|"+kind, "step %d %+v: payloads of client %d were never read by any connection (3 s of repeats)", si, st, i)
+				sig := "C15|listener|datagram-not-routed|" + kind
+				if c.MTU > 0 {
+					sig += "|small-server-mtu" // the ServerHello the listener learns the ID from was fragmented
+				}
+				r.Failf(sig, "step %d %+v: payloads of client %d were never read by any connection (3 s of repeats; server MTU %d)", si, st, i, c.MTU)
 
 				return
 			}
